@@ -117,7 +117,7 @@ func (r *engRun) addTarget() *engTarget {
 	pkg := p.Pkgs[rng.Intn(len(p.Pkgs))]
 	id := p.nextID
 	p.nextID++
-	t := &engTarget{ID: id, Pkg: pkg, Name: fmt.Sprintf("t%d", id), K: 1 + rng.Intn(5), Style: rng.Intn(3), Helper: rng.Intn(3) == 0}
+	t := &engTarget{ID: id, Pkg: pkg, Name: fmt.Sprintf("t%d", id), K: 1 + rng.Intn(5), Style: rng.Intn(4), Helper: rng.Intn(3) == 0}
 	if t.Style == 2 {
 		t.Helper = true
 	}
@@ -362,8 +362,8 @@ func (r *engRun) checkProtocol(run []engEvent, ranIDs []int, mode string, runErr
 			evalFn[r.labelIDAny(e.Label)] = true
 		}
 	}
+	ranSet := map[int]bool{}
 	if mode != "dry" {
-		ranSet := map[int]bool{}
 		for _, id := range ranIDs {
 			if ranSet[id] {
 				r.oracle("C04 body of %d executed twice in one build", id)
@@ -405,6 +405,22 @@ func (r *engRun) checkProtocol(run []engEvent, ranIDs []int, mode string, runErr
 			if len(lines) != 2 || !strings.HasPrefix(lines[0], "sh ") || lines[1] != "out-"+l {
 				r.oracle("C18 %s: output lines %q, want [command, out-%s]", l, lines, l)
 			}
+		} else if ranSet[id] {
+			// a failing body's last words are an unterminated line: delivered too, exactly once, before the failure event
+			if len(lines) != 2 || !strings.HasPrefix(lines[0], "sh ") || lines[1] != "body of "+l+" fails" {
+				r.oracle("C18 %s (failing body): output lines %q, want [command, body of %s fails]", l, lines, l)
+			}
+			seenFailed := false
+			for _, e := range run {
+				if e.Label != l {
+					continue
+				}
+				if e.Kind == "Failed" {
+					seenFailed = true
+				} else if e.Kind == "Print" && seenFailed {
+					r.oracle("C18 %s: output delivered after the failure event", l)
+				}
+			}
 		}
 	}
 }
@@ -432,6 +448,7 @@ func (r *engRun) build(label int, mode string, fail []int, crash string, note st
 		obs.Kind = "crash"
 		hooks, _ := readLines(filepath.Join(r.root, ".hooks.log"), r.hookPos)
 		phase := ""
+		renames := map[int]int{}
 		for _, h := range hooks {
 			f := strings.Split(h, "\t")
 			switch {
@@ -440,18 +457,25 @@ func (r *engRun) build(label int, mode string, fail []int, crash string, note st
 			case f[0] == "eval.before_body" && phase == "run":
 				obs.Started = append(obs.Started, r.labelIDAny(f[1]))
 			case f[0] == "save.renamed" && phase == "run":
-				// the first rename of a function target's record in the run phase is its re-run mark
-				if id := r.labelIDAny(f[1]); id < 1000 {
-					seen := false
-					for _, x := range obs.Premarked {
-						seen = seen || x == id
-					}
-					if !seen {
-						obs.Premarked = append(obs.Premarked, id)
-					}
+				// the first rename of a function target's record in the run phase is its re-run mark, the second its
+				// final (success or failure) record; a source file's record is renamed once. A record that has been
+				// renamed is in place even when the process dies before Evaluate returns.
+				id := r.labelIDAny(f[1])
+				renames[id]++
+				if id < 1000 && renames[id] == 1 {
+					obs.Premarked = append(obs.Premarked, id)
+				} else if renames[id] == 1 || (id < 1000 && renames[id] == 2) {
+					obs.Recorded = append(obs.Recorded, id)
 				}
 			case f[0] == "eval.recorded" && phase == "run":
-				obs.Recorded = append(obs.Recorded, r.labelIDAny(f[1]))
+				id := r.labelIDAny(f[1])
+				have := false
+				for _, x := range obs.Recorded {
+					have = have || x == id
+				}
+				if !have {
+					obs.Recorded = append(obs.Recorded, id)
+				}
 			}
 		}
 		if phase == "load" {
